@@ -141,3 +141,76 @@ Proof.
   destruct (inputs (abs_pipeline o v P the_program) st0 es) as [st1 o1].
   destruct (drain (abs_pipeline o v P the_program) st1) as [st2 o2]. exact H.
 Qed.
+
+(* ---------------- every recorded drop is a documented one ---------------- *)
+From AiuModel Require Import Suffix.
+
+Definition rule_ok (o : aopts) (r : rule) (e : aev) : bool :=
+  match r with
+  | RLimit => negb (a_meta e)                                   (* metadata is never limited *)
+  | REventFilter => negb (a_meta e) && a_x e && a_filt e
+  | RPrep => a_x e && a_prep e && negb (o_keep_prep o)
+  | RGlobal => a_glob e
+  | RPhFilter => a_x e && negb (o_fx o)
+  | ROverlapDrop => a_x e && o_drop o && a_ovl e
+  end.
+
+Section Documented.
+Variables (o : aopts) (es : list aev).
+Definition from_input (e : aev) : Prop := In e es.
+Definition led_ok (ru : rule * Z) : Prop := exists e, In e es /\ In (snd ru) (keyl e) /\ rule_ok o (fst ru) e = true.
+Definition cell_ok (s : cell) : Prop := Forall from_input (c_hold s) /\ Forall led_ok (c_led s).
+
+Lemma note_ok s r e : cell_ok s -> from_input e -> rule_ok o r e = true -> cell_ok (note s r e).
+Proof.
+  intros [Hh Hl] He Hr. split; [exact Hh|]. unfold note. cbn [c_led]. apply Forall_app. split; [exact Hl|].
+  apply Forall_forall. intros [r' u] Hin. apply in_map_iff in Hin. destruct Hin as (u' & Heq & Hu). injection Heq as <- <-.
+  exists e. cbn [fst snd]. auto.
+Qed.
+Lemma count_ok s n : cell_ok s -> cell_ok {| c_hold := c_hold s; c_count := n; c_led := c_led s |}.
+Proof. intros H. exact H. Qed.
+
+Lemma abs_keeps k c b : keeps_clean from_input cell_ok {| cb := abs_cb o k; cid := c; dr := abs_dr; bar := b |}.
+Proof.
+  split; cbn [cb dr].
+  - intros s e He Hs. destruct k; cbn [abs_cb].
+    + split; [repeat constructor; exact He|exact Hs].
+    + split; [constructor|]. destruct Hs as [Hh Hl]. split; [|exact Hl]. cbn [hold c_hold]. apply Forall_app. split; [exact Hh|repeat constructor; exact He].
+    + split; [constructor|]. destruct Hs as [Hh Hl]. split; [|exact Hl]. cbn [hold c_hold]. apply Forall_app. split; [exact Hh|repeat constructor; exact He].
+    + unfold limit_cb. destruct (a_meta e) eqn:Em; [split; [repeat constructor; exact He|exact Hs]|].
+      set (n := if a_inwin e then (c_count s + 1)%Z else c_count s).
+      destruct (a_inwin e && Z.ltb (o_skip o) n && Z.leb n (o_skip o + o_count o)).
+      * destruct (a_x e && a_filt e) eqn:Ef; cbn [fst snd].
+        -- split; [constructor|]. apply note_ok; [now apply count_ok|exact He|]. cbn [rule_ok]. rewrite Em.
+           apply andb_prop in Ef. destruct Ef as [-> ->]. reflexivity.
+        -- split; [repeat constructor; exact He|now apply count_ok].
+      * cbn [fst snd]. split; [constructor|]. apply note_ok; [now apply count_ok|exact He|]. cbn [rule_ok]. now rewrite Em.
+    + destruct (a_x e && a_prep e && negb (o_keep_prep o)) eqn:Ep; cbn [fst snd];
+        [split; [constructor|apply note_ok; auto]|split; [repeat constructor; exact He|exact Hs]].
+    + destruct (a_glob e) eqn:Eg; cbn [fst snd];
+        [split; [constructor|apply note_ok; auto]|split; [repeat constructor; exact He|exact Hs]].
+    + destruct (a_x e && negb (o_fx o)) eqn:Ep; cbn [fst snd];
+        [split; [constructor|apply note_ok; auto]|split; [repeat constructor; exact He|exact Hs]].
+    + destruct (a_x e && o_drop o && a_ovl e) eqn:Ep; cbn [fst snd];
+        [split; [constructor|apply note_ok; auto]|split; [repeat constructor; exact He|exact Hs]].
+  - intros s [Hh Hl]. unfold abs_dr. cbn [fst snd]. split; [exact Hh|]. split; [constructor|exact Hl].
+Qed.
+
+Theorem drops_documented (v : nat -> bool) (P : prof) :
+  let '(out, st, gs) := run_full o v P es in
+  Forall from_input out /\
+  forall g, In g gs -> Forall led_ok (c_led (st (cid g))).
+Proof.
+  unfold run_full.
+  assert (Hk : Forall (keeps_clean from_input cell_ok) (abs_pipeline o v P the_program)).
+  { unfold abs_pipeline. apply Forall_forall. intros g Hg. apply in_map_iff in Hg. destruct Hg as (x & <- & _).
+    unfold abs_stage. apply abs_keeps. }
+  assert (H0 : SInv cell_ok (abs_pipeline o v P the_program) st0)
+    by (intros g _; split; constructor).
+  pose proof (@run_invariant aev cell from_input cell_ok (abs_pipeline o v P the_program) Hk st0 es H0
+                (proj2 (Forall_forall _ _) (fun x H => H))) as H.
+  destruct (inputs (abs_pipeline o v P the_program) st0 es) as [st1 o1].
+  destruct (drain (abs_pipeline o v P the_program) st1) as [st2 o2]. destruct H as [Ho Hs].
+  split; [exact Ho|]. intros g Hg. exact (proj2 (Hs g Hg)).
+Qed.
+End Documented.
